@@ -949,6 +949,13 @@ def run_opt_case(case, rep):
             continue
         rep.count("optimum_oracle_evaluations")
         rep.count(f"optimum_{which}")
+        tag = "duplicate-constraint-names" if duplicate else "plain"
+        if res.f_opt is None or res.x_opt is None or len(res.x_opt) == 0:
+            rep.violation(f"C17:opt:{which}:no-optimum-returned:{tag}", "optimum", case,
+                          observed={"form": key, "message": str(res.message), "is_feasible": bool(res.is_feasible),
+                                    "iterations": n_iter, "constraint_names": cnames},
+                          expected={"x_opt": ref["x"], "f_opt": ref["f"]})
+            continue
         xo = res.x_opt_as_dict
         dx = max(float(np.max(np.abs(np.asarray(xo[v]) - ref["x"][v]) / np.maximum(1.0, np.abs(ref["x"][v])))) for v in ctx.design)
         df = abs(float(res.f_opt) - ref["f"]) / max(1.0, abs(ref["f"]))
@@ -957,7 +964,6 @@ def run_opt_case(case, rep):
             dy = max([float(np.max(np.abs(np.asarray(xo[c]) - ref["sol"][c]) / np.maximum(1.0, np.abs(ref["sol"][c]))))
                       for c in ctx.couplings], default=0.0)
         if df > OPT_F_TOL or max(dx, dy) > OPT_X_TOL:
-            tag = "duplicate-constraint-names" if duplicate else "plain"
             rep.violation(f"C17:opt:{which}:optimum-differs-from-reference:{tag}", "optimum", case,
                           observed={"form": key, "x_opt": xo, "f_opt": float(res.f_opt), "message": str(res.message),
                                     "is_feasible": bool(res.is_feasible), "iterations": n_iter, "constraint_names": cnames},
